@@ -70,6 +70,17 @@ def queries(tier):
                         env=["env_alloc.c", "env_misc.c", "env_sync.c", "env_aio.c", "env_msg.c", "env_pipe.c", "env_idmap.c", "env_libc.c"],
                         defs={"OP": 0, "NB": nb, "FROM": 0, "FAILMSG": 1, "COPYMAX": copymax}, cdefs=["-DENV_MSG_CAP=24"], unwind=30, timeout=300, group="~c11/udp_rx.c#fail",
                         params={"entry_point": "udp_rx_cb / udp_recv_data", "failing_allocation": "the message for the payload (copy and loan paths)"}))
+    # a new connection's protocol state cannot be set up (pipe_init's message queue / pipe_start's table entry): the core then runs
+    # pipe_close, pipe_stop, pipe_fini on that object (pipe_create / *_start_pipe / pipe_reap order); finding F27
+    PNAMES = {0: "xrep", 1: "xrespond", 2: "xsurvey", 3: "rep", 4: "respond", 5: "pair1poly"}
+    for proto, pn in PNAMES.items():
+        for kind, ks in ((0, (0, 1, 2) if proto in (0, 1, 2, 5) else (0,)), (1, (0,))):
+            for k in ks:
+                qs.append(Query("allocfail-pipe-setup-%s-%s-k%d" % (pn, "alloc" if kind == 0 else "idmap", k), "c20/proto_pipe.c", tus=C13.TUS, env=C13.ENV,
+                                defs={"PROTO": proto, "KIND": kind, "FAILK": k, "VH_FAULTPASS": 1}, cdefs=["-DENV_MSG_CAP=8"], unwind=12, unwind_rules=C13.KIT_RULES, timeout=300,
+                                group="c20/proto_pipe.c", concrete=True,
+                                params={"entry_point": "%s pipe_init / pipe_start, then the core's pipe_close, pipe_stop, pipe_fini" % pn,
+                                        "failing_allocation": ("allocator request #%d after the connection arrived" % k) if kind == 0 else "insertion into the socket's pipe table"}))
     # stream transport listeners: resource exhaustion in the accept path (stream accept or pipe allocation) costs one connection, not the listener
     from props import C14
     for q in C14.tran_listener_queries(tier):
